@@ -79,6 +79,8 @@ func demoU16s(vs ...uint16) nl.AttrBytes {
 // demoKernel answers GET_FAR / GET_PDR / GET_QER from fixed tables and acks
 // everything else (e.g. the FAR update itself).
 type demoKernel struct {
+	reqMu sync.Mutex
+	reqs  [][]byte // every request received (netlink header included)
 	fd   int
 	fars map[uint32][]byte // FAR id -> encoded attributes
 	pdrs map[uint32][]byte
@@ -94,6 +96,9 @@ func (k *demoKernel) serve() {
 		}
 		req := make([]byte, n)
 		copy(req, buf[:n])
+		k.reqMu.Lock()
+		k.reqs = append(k.reqs, req)
+		k.reqMu.Unlock()
 		typ := demoNative.Uint16(req[4:6])
 		seq := demoNative.Uint32(req[8:12])
 		cmd := req[16]
@@ -202,9 +207,77 @@ func TestVerifReplay(t *testing.T) {
 		if got != 2 {
 			fmt.Println("REPLAY-CONFIRMED farid: the buffered packets of the FAR named by the IE are not released when its Apply Action child precedes its FAR ID child (applyAction was called with FAR id 0)")
 		}
+	case strings.Contains(m.Obligation, "BAR#at{append}.delay"):
+		// Create/Update BAR with a Downlink Data Notification Delay of 3 x 50 ms: the attribute handed to gtp5g must be 3
+		bar := ie.NewCreateBAR(ie.NewBARID(1), ie.NewDownlinkDataNotificationDelay(150*time.Millisecond))
+		upd := strings.Contains(m.Obligation, "UpdateBAR")
+		if upd {
+			bar = ie.NewUpdateBARWithinSessionModificationRequest(ie.NewBARID(1), ie.NewDownlinkDataNotificationDelay(150*time.Millisecond))
+		}
+		got, ok := verifBARDelay(t, bar, upd)
+		fmt.Printf("BAR delay IE 150ms (octet 3): attribute BAR_DOWNLINK_DATA_NOTIFICATION_DELAY sent to gtp5g = %d (found %v)\n", got, ok)
+		if ok && got != 3 {
+			fmt.Println("REPLAY-CONFIRMED delay: the delay handed to the data plane is the low byte of the duration in nanoseconds, not the IE's value")
+		}
 	default:
 		fmt.Println("no replay case for", m.Obligation)
 	}
+}
+
+// verifBARDelay runs Create/Update BAR against the simulated kernel and returns the delay attribute of the request.
+func verifBARDelay(t *testing.T, req *ie.IE, update bool) (uint8, bool) {
+	fds, err := syscall.Socketpair(syscall.AF_UNIX, syscall.SOCK_DGRAM, 0)
+	if err != nil {
+		t.Fatal(err)
+	}
+	kernel := &demoKernel{fd: fds[1]}
+	go kernel.serve()
+	defer syscall.Close(fds[1])
+	mux, err := nl.NewMux()
+	if err != nil {
+		t.Fatal(err)
+	}
+	muxDone := make(chan struct{})
+	go func() {
+		_ = mux.Serve()
+		close(muxDone)
+	}()
+	defer func() {
+		mux.Close()
+		<-muxDone
+		syscall.Close(fds[0])
+	}()
+	conn := &demoConn{fd: fds[0]}
+	g := &Gtp5g{
+		log:    logrus.WithField("replay", "forwarder"),
+		mux:    mux,
+		client: &gtp5gnl.Client{Client: nl.NewClient(conn, mux), ID: 30},
+		link:   &Gtp5gLink{link: &gtp5gnl.Link{Name: "upfgtp", Index: 7}},
+	}
+	if update {
+		err = g.UpdateBAR(1, req)
+	} else {
+		err = g.CreateBAR(1, req)
+	}
+	if err != nil {
+		fmt.Printf("BAR call: %v\n", err)
+	}
+	kernel.reqMu.Lock()
+	defer kernel.reqMu.Unlock()
+	for _, r := range kernel.reqs {
+		b := r[16+genl.SizeofHeader:]
+		for len(b) > 0 {
+			hdr, hn, err := nl.DecodeAttrHdr(b)
+			if err != nil {
+				break
+			}
+			if hdr.MaskedType() == gtp5gnl.BAR_DOWNLINK_DATA_NOTIFICATION_DELAY && int(hdr.Len)-hn >= 1 {
+				return b[hn], true
+			}
+			b = b[hdr.Len.Align():]
+		}
+	}
+	return 0, false
 }
 
 // verifFlush: session 1, FAR 1 (BUFF, peer = local "gNB", TEID 0x11223344) serves PDR 1 with QER 2 (QFI 9); two
